@@ -18,7 +18,7 @@ from . import csrtarget
 
 PROP = "C14"
 LEVEL = "other"
-GLUE = ["enable_latch", "pending_w1c", "irq_line", "reset_values", "connects_to_initiator", "attaches_to_decoder"]
+GLUE = ["enable_latch", "pending_w1c", "irq_line", "reset_values", "connects_to_initiator", "attaches_to_decoder", "accepts_valid_parameters"]
 
 
 def configs(tier, seed):
@@ -64,7 +64,15 @@ def check_config(ctx, cfg):
     from amaranth.hdl import Fragment
     from amaranth.lib.wiring import connect
     from amaranth_soc import csr
-    mon, emap, srcs = build(cfg)
+    try:
+        mon, emap, srcs = build(cfg)
+    except Refused as e:
+        # every generated parameter set is valid by the documented rules (positive data width, non-negative alignment, any number
+        # of events): a refusal is a violation of "for every event map, data width and alignment", not a configuration to skip
+        native(ctx, "accepts_valid_parameters", False, f"EventMonitor refused valid parameters {cfg}: {e}", cfg)
+        ctx.nontrivial = True
+        return
+    native(ctx, "accepts_valid_parameters", True, "", cfg)
     # (iii) attachment, on separate instances (connect() mutates nothing but keep the proof instance clean)
     mon2, _, _ = build(cfg)
     ini = csr.Interface(addr_width=mon2.bus.addr_width, data_width=cfg["dw"], path=("ini",))
@@ -132,6 +140,8 @@ def main(run: Run):
     run.functions["amaranth_soc.csr.event.EventMonitor.elaborate"] = "per-configuration (bounded: event count, width, alignment, modes); flattened with the real Multiplexer/registers/Monitor"
     run.functions["amaranth_soc.csr.event.EventMonitor.__init__"] = "bounded: register sizing/addresses taken from the memory map; attachment clauses evaluated natively"
     run_configs(run, __name__, cfgs)
+    from . import ctor_l1
+    ctor_l1.add_to(run, ['eventmonitor_init'])
     return run.finish(
         explanation="Generic CSR-target contract (C04/C05 clauses) re-checked on the flattened EventMonitor at the addresses its "
                     "memory map reports, plus element-level glue clauses (enable latch, pending write-one-to-clear with trigger "
